@@ -228,8 +228,29 @@ func (b *c08Built) ref(bytes []byte) uint16 {
 	return v
 }
 
+var c08Reused = gopacket.NewSerializeBuffer()
+var c08SerCount int
+
 func c08Serialize(c *vlib.Ctx, ls ...gopacket.SerializableLayer) []byte {
+	// alternate between a fresh buffer and one that is reused and still holds junk from its previous use: the written
+	// checksum must not depend on what the buffer memory contained
+	c08SerCount++
 	buf := gopacket.NewSerializeBuffer()
+	if c08SerCount%2 == 0 {
+		buf = c08Reused
+		buf.Clear()
+		if p, err := buf.PrependBytes(200); err == nil {
+			for i := range p {
+				p[i] = byte(0xA5 + i + c08SerCount)
+			}
+		}
+		if p, err := buf.AppendBytes(100); err == nil {
+			for i := range p {
+				p[i] = byte(0x5A + i)
+			}
+		}
+		c.Count("serializations_into_dirty_reused_buffer", 1)
+	}
 	if err := gopacket.SerializeLayers(buf, gopacket.SerializeOptions{FixLengths: true, ComputeChecksums: true}, ls...); err != nil {
 		c.Violation("serialize-error", "SerializeLayers(ComputeChecksums) failed on an in-range packet: "+err.Error(), nil)
 		return nil
@@ -430,7 +451,7 @@ func c08Proto(c *vlib.Ctx) {
 				if err != nil {
 					c.Violation("verify-error:"+proto, "VerifyChecksum returned an error on a serialized packet: "+err.Error(), hex.EncodeToString(b.bytes))
 				} else if !res.Valid {
-					c.Violation(fmt.Sprintf("verify-rejects-written:%s:stored=%#04x", proto, stored), fmt.Sprintf("%s: VerifyChecksum rejects the checksum the serializer wrote (stored %#04x, Correct=%#x)", proto, stored, res.Correct), hex.EncodeToString(b.bytes))
+					c.Violation(c08RejKey(proto, stored), fmt.Sprintf("%s: VerifyChecksum rejects the checksum the serializer wrote (stored %#04x, Correct=%#x)", proto, stored, res.Correct), hex.EncodeToString(b.bytes))
 				} else {
 					if e2, mm := p.VerifyChecksums(); e2 != nil || len(mm) != 0 {
 						c.Violation("packet-verifychecksums:"+proto, fmt.Sprintf("Packet.VerifyChecksums on a serialized packet: err=%v mismatches=%d", e2, len(mm)), hex.EncodeToString(b.bytes))
@@ -488,7 +509,7 @@ func c08Proto(c *vlib.Ctx) {
 					}
 					res, _, err, _ := b.verify(b.bytes)
 					if err == nil && !res.Valid {
-						c.Violation(fmt.Sprintf("verify-rejects-written:%s:stored=%#04x", proto, stored), fmt.Sprintf("%s: VerifyChecksum rejects the checksum the serializer wrote (stored %#04x, Correct=%#x)", proto, stored, res.Correct), hex.EncodeToString(b.bytes))
+						c.Violation(c08RejKey(proto, stored), fmt.Sprintf("%s: VerifyChecksum rejects the checksum the serializer wrote (stored %#04x, Correct=%#x)", proto, stored, res.Correct), hex.EncodeToString(b.bytes))
 					}
 					if stored == target {
 						c.Count("special_outcomes_hit", 1)
@@ -522,7 +543,7 @@ func c08Proto(c *vlib.Ctx) {
 			}
 			res, _, err, _ := b.verify(b.bytes)
 			if err != nil || !res.Valid {
-				c.Violation(fmt.Sprintf("verify-rejects-written:%s:stored=%#04x", proto, binary.BigEndian.Uint16(b.bytes[b.ckOff:])), fmt.Sprintf("%s: verification of a freshly serialized packet: err=%v valid=%v", proto, err, res.Valid), hex.EncodeToString(b.bytes))
+				c.Violation(c08RejKey(proto, binary.BigEndian.Uint16(b.bytes[b.ckOff:])), fmt.Sprintf("%s: verification of a freshly serialized packet: err=%v valid=%v", proto, err, res.Valid), hex.EncodeToString(b.bytes))
 			}
 			flips, skipped, skippedErr, skippedNone := 0, 0, 0, 0
 			for bit := 0; bit < len(b.bytes)*8; bit++ {
@@ -610,4 +631,14 @@ func c08Proto(c *vlib.Ctx) {
 		}
 		c.End()
 	}
+}
+
+// c08RejKey names the finding "verification rejects a written checksum"; only the two one's-complement zero
+// representations are distinguished, every other stored value is one class.
+func c08RejKey(proto string, stored uint16) string {
+	switch stored {
+	case 0, 0xffff:
+		return fmt.Sprintf("verify-rejects-written:%s:stored=%#04x", proto, stored)
+	}
+	return "verify-rejects-written:" + proto + ":stored=other"
 }
